@@ -162,6 +162,9 @@ fn real_main() {
     // library panics are caught per call (catch_unwind); keep their text for a diagnosis if one escapes
     std::panic::set_hook(Box::new(|info| {
         *LAST_PANIC.lock().unwrap() = format!("{}", info);
+        if std::env::var("RVH_SHOW_PANIC").is_ok() {
+            eprintln!("rvh: caught panic: {}", info);
+        }
     }));
     let args: Vec<String> = std::env::args().collect();
     let cmd = args.get(1).map(|s| s.as_str()).unwrap_or("");
